@@ -21,6 +21,7 @@ import (
 func init() {
 	register(&Check{ID: "C19", Level: "exploration", Drive: c19})
 	apiParts["C19/counter"] = c19Counter
+	apiParts["C19/exhaustive"] = c19Exhaustive
 	apiParts["C19/concurrent"] = c19Concurrent
 	apiParts["C19/collector"] = c19Collector
 }
@@ -180,6 +181,85 @@ func c19Counter(r *ev.Run) {
 		}
 	}
 	r.Require("evictions_observed", 200)
+}
+
+// c19Exhaustive enumerates every access sequence up to a length bound over at most maxKeys keys, up to renaming of the keys
+// (restricted growth strings: the next new key is always the next unused name), and judges the last step of each sequence by the
+// same step relation as c19Counter (all earlier steps are the last step of a shorter enumerated sequence).
+func c19Exhaustive(r *ev.Run) {
+	type bound struct {
+		capacity uint8
+		maxKeys  int
+		maxLen   int
+	}
+	bounds := []bound{{1, 3, 10}, {2, 4, 11}, {3, 4, 12}, {3, 5, 11}, {4, 5, 11}}
+	if r.Tier == "thorough" {
+		bounds = []bound{{1, 3, 13}, {2, 4, 13}, {3, 4, 14}, {3, 5, 13}, {4, 5, 13}, {4, 6, 12}, {5, 6, 12}}
+	}
+	for _, b := range bounds {
+		seqs := int64(0)
+		stop := false
+		var rec func(seq []hkOp, used int, prev map[string]uint64)
+		rec = func(seq []hkOp, used int, prev map[string]uint64) {
+			if len(seq) == b.maxLen || stop {
+				return
+			}
+			for k := 0; k <= used && k < b.maxKeys; k++ {
+				key := string(rune('A' + k))
+				next := append(seq[:len(seq):len(seq)], hkOp{Kind: "incr", Key: key})
+				cur := hkReplay(b.capacity, next)
+				seqs++
+				problem, what := "", ""
+				if pv, ok := prev[key]; ok {
+					exp := copyMap(prev)
+					exp[key] = pv + 1
+					if !sameMap(exp, cur) {
+						problem, what = "C19:tracked-count-not-exact", "an access to a tracked key did not add exactly 1 to its count and leave the others alone"
+					}
+				} else if len(prev) < int(b.capacity) {
+					exp := copyMap(prev)
+					exp[key] = 1
+					if !sameMap(exp, cur) {
+						problem, what = "C19:admission-wrong", "admitting a new key into a counter with free capacity did not yield S + {k:1}"
+					}
+				} else {
+					var gone []string
+					for pk := range prev {
+						if _, ok := cur[pk]; !ok {
+							gone = append(gone, pk)
+						}
+					}
+					okStep := len(gone) == 1 && cur[key] == 1 && len(cur) == len(prev)
+					if okStep {
+						for pk, v := range prev {
+							if pk != gone[0] && cur[pk] != v {
+								okStep = false
+							}
+						}
+					}
+					if !okStep {
+						problem, what = "C19:eviction-wrong-shape", "admitting a key into a full counter did not evict exactly one key and admit the new one with count 1"
+					} else if prev[gone[0]] != minCount(prev) {
+						problem, what = "C19:evicted-not-lowest", fmt.Sprintf("evicted %q with count %d while the lowest count is %d", gone[0], prev[gone[0]], minCount(prev))
+					}
+				}
+				if problem != "" {
+					r.Violation(problem, what+" (shortest sequences are enumerated first along each branch)", map[string]interface{}{"capacity": b.capacity, "ops_prefix": opStrings(next), "state_before": prev, "state_after": cur, "enumeration": fmt.Sprintf("all sequences over <= %d keys up to length %d", b.maxKeys, b.maxLen)})
+					stop = true
+					return
+				}
+				nu := used
+				if k == used {
+					nu++
+				}
+				rec(next, nu, cur)
+			}
+		}
+		rec(nil, 0, map[string]uint64{})
+		r.Cases(int(seqs), fmt.Sprintf("counter-exhaustive/cap%d/keys%d/len%d", b.capacity, b.maxKeys, b.maxLen))
+		r.Count("exhaustive_sequences_judged", seqs)
+	}
+	r.Require("exhaustive_sequences_judged", 100000)
 }
 
 func opStrings(ops []hkOp) string {
@@ -466,9 +546,10 @@ func c19Collector(r *ev.Run) {
 var hotkeyLine = regexp.MustCompile(`^counter: (\d+)  keyname: (.*)$`)
 
 func c19(r *ev.Run) {
-	r.Rule("counter: PRNG access sequences (uniform / zipf / round-robin over capacity+1 keys) with latches and frees on capacities {0,1,2,3,8,50,255}, every prefix replayed on a fresh counter and consecutive snapshots judged by the step relation; concurrent writers and latchers; collector: PRNG sequences of accesses / collect / evict / free over 1-4 per-backend counters with a virtual minute clock that also ticks in the middle of a collect, with and without concurrent HOTKEY readers, the last four handed-out reports re-read after every step (a handed-out report must not change); end to end: HOTKEY reply of the real proxy parsed; distinct = distinct (capacity, distribution) / (capacity, counters, tick mode, readers) tuples")
+	r.Rule("counter: PRNG access sequences (uniform / zipf / round-robin over capacity+1 keys) with latches and frees on capacities {0,1,2,3,8,50,255}, every prefix replayed on a fresh counter and consecutive snapshots judged by the step relation; every access sequence up to renaming over <= capacity+1 (+2) keys up to length 10-12 (12-14 thorough) for capacities 1-4 (5), judged by the same relation; concurrent writers and latchers; collector: PRNG sequences of accesses / collect / evict / free over 1-4 per-backend counters with a virtual minute clock that also ticks in the middle of a collect, with and without concurrent HOTKEY readers, the last four handed-out reports re-read after every step (a handed-out report must not change); end to end: HOTKEY reply of the real proxy parsed while GET traffic is mixed with EVAL / SCAN in every letter case (their first argument is not a key); distinct = distinct (capacity, distribution) / (capacity, counters, tick mode, readers) tuples")
 	r.Assume("the tracked state after a prefix is observed by replaying the prefix on a fresh counter and latching (Latch is destructive)")
 	runAPIPart(r, "counter", false, nil, 10*time.Minute)
+	runAPIPart(r, "exhaustive", false, nil, 20*time.Minute)
 	scope := []string{"proc/redis/hotkey/counter.go", "proc/redis/hotkey/collector.go"}
 	runAPIPart(r, "concurrent", true, scope, 10*time.Minute)
 	runAPIPart(r, "collector", true, scope, 10*time.Minute)
@@ -521,6 +602,21 @@ func c19EndToEnd(r *ev.Run) {
 				default:
 				}
 				k := fmt.Sprintf("hot%d", crnd.Intn(1+crnd.Intn(120)))
+				if crnd.Intn(5) == 0 {
+					// forwarded commands whose first argument is not a key, in every letter case: nothing of them may be reported
+					switch crnd.Intn(4) {
+					case 0:
+						conn.DoS(5*time.Second, []string{"EVAL", "eval", "Eval", "eVAL"}[crnd.Intn(4)], "return 'c19-script-body'", "0")
+					case 1:
+						conn.DoS(5*time.Second, []string{"SCAN", "scan", "Scan", "sCAN"}[crnd.Intn(4)], "0")
+					case 2:
+						conn.DoS(5*time.Second, []string{"SCAN", "Scan"}[crnd.Intn(2)], "0", "COUNT", "10")
+					default:
+						conn.DoS(5*time.Second, []string{"EVAL", "Eval"}[crnd.Intn(2)], "return redis.call('get', KEYS[1])", "1", k)
+					}
+					r.Count("e2e_keyless_commands_sent", 1)
+					continue
+				}
 				amu.Lock()
 				accessed[k] = true
 				amu.Unlock()
@@ -572,6 +668,7 @@ func c19EndToEnd(r *ev.Run) {
 	conn.Close()
 	r.Cases(n, "e2e/hotkey-replies")
 	r.Require("e2e_reports_with_several_keys", 20)
+	r.Require("e2e_keyless_commands_sent", 50)
 	sortStrings(nil)
 	_ = sort.Strings
 }
